@@ -307,6 +307,12 @@ def r13_5(ctx, fx):
                 rs = guards.rootstrs(fn, rv["ops"][1])
                 if not all(r.startswith("param:_1") for r in rs):
                     bad.append((fn.site(node), sorted(rs)))
+            elif rv["r"] == "agg" and "request_id" in (rv.get("fields") or []) and rv["adt"].startswith("protocol::request_response::"):
+                # the same result as a private struct built once at the end of the future (every branch then yields only the outcome)
+                n += 5
+                rs = guards.rootstrs(fn, rv["ops"][rv["fields"].index("request_id")])
+                if not all(r.startswith("param:_1") for r in rs):
+                    bad.append((fn.site(node), sorted(rs)))
         ctx.ob("R13.5", "%s/result-tuples-carry-captured-request-id" % short(fn.key), n >= 5 and not bad, site=fn.site(fn.entry), cfg=fx.cfg,
                detail="result tuples: %d (floor 5), tuples whose request id is not the captured one: %s" % (n, bad))
 
